@@ -1741,7 +1741,7 @@ func TestDriverBlocks(t *testing.T) {
 	nBlocks := EnvInt("VERIF_N", 120)
 	rng := NewRng(seed)
 	side := NewSidecar("blocks", seed,
-		"case = one block of 0-10 generated transactions (15 kinds incl. destruction scripts and Cosmos bank sends of 1-3 other denominations to wallets / contracts / coming CREATE and CREATE2 addresses x fee variants x gas limits x values x 10 malformations + replays of admitted bytes, consensus max_gas varied; other denominations minted to addresses of the coming block between blocks) executed by FinalizeBlock/Commit on the real app, "+
+		"case = one block of 0-10 generated transactions, and one closing block of 440-480 of them (positions >= 256) (15 kinds incl. destruction scripts and Cosmos bank sends of 1-3 other denominations to wallets / contracts / coming CREATE and CREATE2 addresses x fee variants x gas limits x values x 10 malformations + replays of admitted bytes, consensus max_gas varied; other denominations minted to addresses of the coming block between blocks) executed by FinalizeBlock/Commit on the real app, "+
 			"with the committed pre/post state (every denomination) of the block's address universe; non-trivial = block with >= 2 Ethereum txs that passed the ante handler and >= 2 distinct outcome classes; distinct by (kinds, malformations, classes, gas limits)")
 	cases := NewCases(dir, "From Evm Require Import TxPipe TxPipeExt TxPipeDenom CorrTxPipe.", "tp_mismatches")
 	d := &driver{t: t, side: side, cases: cases}
